@@ -15,9 +15,12 @@ import (
 	"flag"
 	"fmt"
 	"go/ast"
+	"go/build"
+	"go/importer"
 	"go/parser"
 	"go/printer"
 	"go/token"
+	"go/types"
 	"os"
 	"path/filepath"
 	"sort"
@@ -26,6 +29,8 @@ import (
 )
 
 const modPath = "github.com/sanonone/kektordb"
+
+var nselTotal, ngoTotal, nmapTotal int
 
 var syncTypes = map[string]bool{"Mutex": true, "RWMutex": true, "Once": true}
 var osFuncs = map[string]bool{
@@ -77,33 +82,93 @@ func main() {
 		fatal(err)
 	}
 	nfiles, nsync, nos := 0, 0, 0
+	if err := os.Chdir(*repo); err != nil { // the source importer resolves the module from the working directory
+		fatal(err)
+	}
+	tcFset := token.NewFileSet()
+	imp := importer.ForCompiler(tcFset, "source", nil)
 	for _, p := range names {
 		dir := filepath.Join(*repo, p)
 		ents, err := os.ReadDir(dir)
 		if err != nil {
 			fatal(err)
 		}
+		type prepared struct {
+			src  string
+			name string
+			raw  []byte
+			nsel int
+		}
+		var files []prepared
 		for _, e := range ents {
 			n := e.Name()
 			if e.IsDir() || !strings.HasSuffix(n, ".go") || strings.HasSuffix(n, "_test.go") {
 				continue
 			}
 			src := filepath.Join(dir, n)
-			changed, data, cs, co, err := rewriteFile(src, in(syncPkgs, p), in(osPkgs, p))
+			raw, err := os.ReadFile(src)
 			if err != nil {
-				fatal(fmt.Errorf("%s: %w", src, err))
+				fatal(err)
+			}
+			nsel := 0
+			if in(syncPkgs, p) {
+				raw, nsel, err = rewriteSelects(src, raw)
+				if err != nil {
+					fatal(fmt.Errorf("%s: %w", src, err))
+				}
+			}
+			files = append(files, prepared{src, n, raw, nsel})
+		}
+		// type-check the package (as prepared) to find the range statements over maps
+		mapOffs := map[string]map[int]bool{}
+		if in(syncPkgs, p) {
+			var asts []*ast.File
+			for _, pf := range files {
+				if ok, _ := build.Default.MatchFile(dir, pf.name); !ok {
+					continue
+				}
+				f, err := parser.ParseFile(tcFset, pf.src, pf.raw, 0)
+				if err != nil {
+					fatal(fmt.Errorf("%s: %w", pf.src, err))
+				}
+				asts = append(asts, f)
+			}
+			info := &types.Info{Types: map[ast.Expr]types.TypeAndValue{}}
+			conf := types.Config{Importer: imp, Error: func(error) {}}
+			conf.Check(modPath+"/"+p, tcFset, asts, info)
+			for _, f := range asts {
+				name := tcFset.Position(f.Pos()).Filename
+				ast.Inspect(f, func(x ast.Node) bool {
+					if r, ok := x.(*ast.RangeStmt); ok {
+						if tv, ok := info.Types[r.X]; ok && tv.Type != nil {
+							if _, ok := tv.Type.Underlying().(*types.Map); ok {
+								if mapOffs[name] == nil {
+									mapOffs[name] = map[int]bool{}
+								}
+								mapOffs[name][tcFset.Position(r.Pos()).Offset] = true
+							}
+						}
+					}
+					return true
+				})
+			}
+		}
+		for _, pf := range files {
+			changed, data, cs, co, err := rewriteFile(pf.src, pf.raw, pf.nsel, in(syncPkgs, p), in(osPkgs, p), mapOffs[pf.src])
+			if err != nil {
+				fatal(fmt.Errorf("%s: %w", pf.src, err))
 			}
 			if !changed {
 				continue
 			}
-			dst := filepath.Join(*out, p, n)
+			dst := filepath.Join(*out, p, pf.name)
 			if err := os.MkdirAll(filepath.Dir(dst), 0o755); err != nil {
 				fatal(err)
 			}
 			if err := os.WriteFile(dst, data, 0o644); err != nil {
 				fatal(err)
 			}
-			replace[src] = dst
+			replace[pf.src] = dst
 			nfiles++
 			nsync += cs
 			nos += co
@@ -150,7 +215,7 @@ func main() {
 	if err := os.WriteFile(*overlayPath, b, 0o644); err != nil {
 		fatal(err)
 	}
-	fmt.Printf("rewrite: %d files instrumented (%d sync sites, %d os sites), %d overlay entries\n", nfiles, nsync, nos, len(replace))
+	fmt.Printf("rewrite: %d files instrumented (%d sync sites, %d os sites, %d select sites, %d go statements, %d map ranges), %d overlay entries\n", nfiles, nsync, nos, nselTotal, ngoTotal, nmapTotal, len(replace))
 }
 
 func fatal(err error) {
@@ -158,9 +223,429 @@ func fatal(err error) {
 	os.Exit(2)
 }
 
-func rewriteFile(path string, doSync, doOS bool) (changed bool, out []byte, nsync, nos int, err error) {
+// cleanupCalls are the os functions whose direct use inside a "go func() {...}()"
+// literal marks a fire-and-forget clean-up goroutine.
+var cleanupCalls = map[string]bool{"RemoveAll": true, "Remove": true}
+
+// rewriteCleanupGo turns
+//
+//	go func(p T) { ... os.RemoveAll(p) ... }(x)
+//
+// into
+//
+//	{ verifGoArg0 := x; verifos.GoFS(func() { func(p T) { ... }(verifGoArg0) }) }
+//
+// for function literals that call os.Remove/os.RemoveAll directly and take no
+// lock (no Lock/RLock/Wait call in the body). Returns the number of sites.
+func rewriteCleanupGo(f *ast.File, osName string) int {
+	n := 0
+	isCleanup := func(lit *ast.FuncLit) bool {
+		found, locks := false, false
+		ast.Inspect(lit.Body, func(x ast.Node) bool {
+			if sel, ok := x.(*ast.SelectorExpr); ok {
+				if id, ok := sel.X.(*ast.Ident); ok && id.Obj == nil && id.Name == osName && cleanupCalls[sel.Sel.Name] {
+					found = true
+				}
+				switch sel.Sel.Name {
+				case "Lock", "RLock", "Wait", "Done":
+					locks = true
+				}
+			}
+			return true
+		})
+		return found && !locks
+	}
+	fix := func(list []ast.Stmt) {
+		for i, st := range list {
+			g, ok := st.(*ast.GoStmt)
+			if !ok {
+				continue
+			}
+			lit, ok := g.Call.Fun.(*ast.FuncLit)
+			if !ok || !isCleanup(lit) || g.Call.Ellipsis.IsValid() {
+				continue
+			}
+			blk := &ast.BlockStmt{}
+			args := make([]ast.Expr, len(g.Call.Args))
+			for k, a := range g.Call.Args {
+				name := ast.NewIdent("verifGoArg" + strconv.Itoa(k))
+				blk.List = append(blk.List, &ast.AssignStmt{Lhs: []ast.Expr{name}, Tok: token.DEFINE, Rhs: []ast.Expr{a}})
+				args[k] = ast.NewIdent(name.Name)
+			}
+			inner := &ast.FuncLit{
+				Type: &ast.FuncType{Params: &ast.FieldList{}},
+				Body: &ast.BlockStmt{List: []ast.Stmt{&ast.ExprStmt{X: &ast.CallExpr{Fun: lit, Args: args}}}},
+			}
+			blk.List = append(blk.List, &ast.ExprStmt{X: &ast.CallExpr{
+				Fun:  &ast.SelectorExpr{X: ast.NewIdent("verifos"), Sel: ast.NewIdent("GoFS")},
+				Args: []ast.Expr{inner},
+			}})
+			list[i] = blk
+			n++
+		}
+	}
+	ast.Inspect(f, func(x ast.Node) bool {
+		switch b := x.(type) {
+		case *ast.BlockStmt:
+			fix(b.List)
+		case *ast.CaseClause:
+			fix(b.Body)
+		case *ast.CommClause:
+			fix(b.Body)
+		}
+		return true
+	})
+	return n
+}
+
+// rewriteSelects makes the choice among simultaneously ready cases of a select
+// statement a function of the seed. Go picks uniformly at random with a
+// generator the program cannot seed; in the instrumented copy every select with
+// at least two communication clauses and no default clause first polls its
+// cases one by one, in clause order or in reverse clause order
+// (verifsync.SelFlip decides from the run seed, the site and a per-site
+// counter), and only blocks in the original statement when none was ready:
+//
+//	if verifsync.SelFlip(site) {
+//		select { case c1: B1; default: select { case c2: B2; default: verifsync.SelBlock(); select { ...original... } } }
+//	} else { ...same with the clauses polled in reverse order... }
+//
+// Either order is a behaviour the Go select could have shown. Channel and send
+// operands are evaluated once per poll instead of once per statement (all
+// operands at the rewritten sites are side-effect free apart from time.After,
+// whose extra timers are never ready at the poll). Labels inside case bodies
+// are renamed per copy. The pass works on the source text so that the copies
+// are independent; it repeats until no eligible select is left (nested ones).
+func rewriteSelects(path string, src []byte) ([]byte, int, error) {
+	total := 0
+	copyNo := 0
+	for round := 0; round < 20; round++ {
+		fset := token.NewFileSet()
+		f, err := parser.ParseFile(fset, path, src, 0)
+		if err != nil {
+			return nil, 0, err
+		}
+		tf := fset.File(f.Pos())
+		off := func(p token.Pos) int { return tf.Offset(p) }
+		type span struct {
+			from, to int
+			text     string
+		}
+		var spans []span
+		var visit func(list []ast.Stmt)
+		handled := map[*ast.SelectStmt]bool{}
+		visit = func(list []ast.Stmt) {
+			for i, st := range list {
+				sel, ok := st.(*ast.SelectStmt)
+				if !ok {
+					continue
+				}
+				if i > 0 {
+					if es, ok := list[i-1].(*ast.ExprStmt); ok {
+						if ce, ok := es.X.(*ast.CallExpr); ok {
+							if se, ok := ce.Fun.(*ast.SelectorExpr); ok && se.Sel.Name == "SelBlock" {
+								handled[sel] = true
+								continue
+							}
+						}
+					}
+				}
+				var comm []*ast.CommClause
+				hasDefault := false
+				for _, c := range sel.Body.List {
+					cc := c.(*ast.CommClause)
+					if cc.Comm == nil {
+						hasDefault = true
+					} else {
+						comm = append(comm, cc)
+					}
+				}
+				if hasDefault || len(comm) < 2 {
+					continue
+				}
+				// skip if nested inside a span already collected this round
+				inside := false
+				for _, sp := range spans {
+					if off(sel.Pos()) >= sp.from && off(sel.End()) <= sp.to {
+						inside = true
+					}
+				}
+				if inside {
+					continue
+				}
+				// clause texts
+				type clause struct{ head, body string }
+				var cl []clause
+				for k, cc := range comm {
+					end := off(sel.Body.Rbrace)
+					// next clause in source order
+					for _, c2 := range sel.Body.List {
+						if c2.Pos() > cc.Pos() && off(c2.Pos()) < end {
+							end = off(c2.Pos())
+						}
+					}
+					_ = k
+					cl = append(cl, clause{string(src[off(cc.Pos()) : off(cc.Colon)+1]), string(src[off(cc.Colon)+1 : end])})
+				}
+				// labels defined inside the statement
+				var labels []string
+				ast.Inspect(sel, func(x ast.Node) bool {
+					if ls, ok := x.(*ast.LabeledStmt); ok {
+						labels = append(labels, ls.Label.Name)
+					}
+					return true
+				})
+				fresh := func(body string) string {
+					if len(labels) == 0 {
+						return body
+					}
+					copyNo++
+					for _, l := range labels {
+						body = replaceIdent(body, l, l+"_v"+strconv.Itoa(copyNo))
+					}
+					return body
+				}
+				orig := func() string {
+					var b strings.Builder
+					b.WriteString("verifsync.SelBlock()\nselect {\n")
+					for _, c := range cl {
+						b.WriteString(c.head + fresh(c.body) + "\n")
+					}
+					b.WriteString("}\n")
+					return b.String()
+				}
+				poll := func(order []int) string {
+					var b strings.Builder
+					for _, k := range order {
+						b.WriteString("select {\n" + cl[k].head + fresh(cl[k].body) + "\ndefault:\n")
+					}
+					b.WriteString(orig())
+					for range order {
+						b.WriteString("}\n")
+					}
+					return b.String()
+				}
+				fwd := make([]int, len(cl))
+				rev := make([]int, len(cl))
+				for k := range cl {
+					fwd[k] = k
+					rev[k] = len(cl) - 1 - k
+				}
+				site := fnv32(path + ":" + strconv.Itoa(fset.Position(sel.Pos()).Line) + ":" + strconv.Itoa(round) + ":" + strconv.Itoa(len(spans)))
+				text := "if verifsync.SelFlip(" + strconv.FormatUint(uint64(site), 10) + ") {\n" + poll(fwd) + "} else {\n" + poll(rev) + "}\n"
+				spans = append(spans, span{off(sel.Pos()), off(sel.End()), text})
+			}
+		}
+		ast.Inspect(f, func(x ast.Node) bool {
+			switch b := x.(type) {
+			case *ast.BlockStmt:
+				visit(b.List)
+			case *ast.CaseClause:
+				visit(b.Body)
+			case *ast.CommClause:
+				visit(b.Body)
+			}
+			return true
+		})
+		if len(spans) == 0 {
+			return src, total, nil
+		}
+		sort.Slice(spans, func(i, j int) bool { return spans[i].from > spans[j].from })
+		for _, sp := range spans {
+			src = append(append(append([]byte(nil), src[:sp.from]...), sp.text...), src[sp.to:]...)
+		}
+		total += len(spans)
+	}
+	return nil, 0, fmt.Errorf("select rewriting did not converge")
+}
+
+func fnv32(s string) uint32 {
+	h := uint32(2166136261)
+	for i := 0; i < len(s); i++ {
+		h ^= uint32(s[i])
+		h *= 16777619
+	}
+	return h
+}
+
+// replaceIdent replaces whole-word occurrences of old in s.
+func replaceIdent(s, old, new string) string {
+	isID := func(c byte) bool {
+		return c == '_' || c >= '0' && c <= '9' || c >= 'a' && c <= 'z' || c >= 'A' && c <= 'Z'
+	}
+	var b strings.Builder
+	for i := 0; i < len(s); {
+		if strings.HasPrefix(s[i:], old) && (i == 0 || !isID(s[i-1])) && (i+len(old) == len(s) || !isID(s[i+len(old)])) {
+			b.WriteString(new)
+			i += len(old)
+			continue
+		}
+		b.WriteByte(s[i])
+		i++
+	}
+	return b.String()
+}
+
+// rewriteMapRanges turns "for k, v := range m { ... }" over a map (found by the
+// type check of the package, identified here by source offset) into
+//
+//	for verifIt := verifsync.RangeMap(m); verifIt.Next(); {
+//		k, v := verifIt.Key(), verifIt.Val()
+//		...
+//	}
+//
+// RangeMap visits the keys in an order that is a function of the run seed (Go's
+// own order is drawn from a generator the program cannot seed), skips keys
+// deleted meanwhile and reads each value when it is reached, as the range
+// statement does; entries added during the loop are not visited, which the
+// language allows.
+func rewriteMapRanges(fset *token.FileSet, f *ast.File, offs map[int]bool) int {
+	if len(offs) == 0 {
+		return 0
+	}
+	n := 0
+	conv := func(r *ast.RangeStmt) ast.Stmt {
+		it := ast.NewIdent("verifIt")
+		call := func(m string) ast.Expr {
+			return &ast.CallExpr{Fun: &ast.SelectorExpr{X: ast.NewIdent("verifIt"), Sel: ast.NewIdent(m)}}
+		}
+		var lhs, rhs []ast.Expr
+		isBlank := func(e ast.Expr) bool {
+			if e == nil {
+				return true
+			}
+			id, ok := e.(*ast.Ident)
+			return ok && id.Name == "_"
+		}
+		if !isBlank(r.Key) {
+			lhs = append(lhs, r.Key)
+			rhs = append(rhs, call("Key"))
+		}
+		if !isBlank(r.Value) {
+			lhs = append(lhs, r.Value)
+			rhs = append(rhs, call("Val"))
+		}
+		body := &ast.BlockStmt{Lbrace: r.Body.Lbrace, Rbrace: r.Body.Rbrace}
+		if len(lhs) > 0 {
+			tok := r.Tok
+			if tok == token.ILLEGAL {
+				tok = token.DEFINE
+			}
+			body.List = append(body.List, &ast.AssignStmt{Lhs: lhs, Tok: tok, Rhs: rhs})
+		}
+		body.List = append(body.List, r.Body.List...)
+		return &ast.ForStmt{
+			For:  r.For,
+			Init: &ast.AssignStmt{Lhs: []ast.Expr{it}, Tok: token.DEFINE, Rhs: []ast.Expr{&ast.CallExpr{Fun: &ast.SelectorExpr{X: ast.NewIdent("verifsync"), Sel: ast.NewIdent("RangeMap")}, Args: []ast.Expr{r.X}}}},
+			Cond: call("Next"),
+			Body: body,
+		}
+	}
+	match := func(st ast.Stmt) (ast.Stmt, bool) {
+		r, ok := st.(*ast.RangeStmt)
+		if !ok || !offs[fset.Position(r.Pos()).Offset] {
+			return nil, false
+		}
+		n++
+		return conv(r), true
+	}
+	fix := func(list []ast.Stmt) {
+		for i, st := range list {
+			if ns, ok := match(st); ok {
+				list[i] = ns
+			}
+		}
+	}
+	ast.Inspect(f, func(x ast.Node) bool {
+		switch b := x.(type) {
+		case *ast.BlockStmt:
+			fix(b.List)
+		case *ast.CaseClause:
+			fix(b.Body)
+		case *ast.CommClause:
+			fix(b.Body)
+		case *ast.LabeledStmt:
+			if ns, ok := match(b.Stmt); ok {
+				b.Stmt = ns
+			}
+		}
+		return true
+	})
+	return n
+}
+
+// rewriteGo turns every remaining go statement
+//
+//	go f(x, y)
+//
+// into
+//
+//	{ verifGoFn := f; verifGoArg0 := x; verifGoArg1 := y; verifsync.Go(func() { verifGoFn(verifGoArg0, verifGoArg1) }) }
+//
+// (function value and arguments are still evaluated by the spawning goroutine at
+// the statement). verifsync.Go registers the new goroutine with the simulator at
+// the spawn point - identity and priority no longer depend on which goroutine
+// reaches its first lock first - and, in scheduled mode, parks it before its
+// first instruction. Without a simulator it is the go statement.
+func rewriteGo(f *ast.File) int {
+	n := 0
+	fix := func(list []ast.Stmt) {
+		for i, st := range list {
+			g, ok := st.(*ast.GoStmt)
+			if !ok {
+				continue
+			}
+			blk := &ast.BlockStmt{}
+			var fun ast.Expr
+			if lit, ok := g.Call.Fun.(*ast.FuncLit); ok {
+				fun = lit
+			} else {
+				blk.List = append(blk.List, &ast.AssignStmt{Lhs: []ast.Expr{ast.NewIdent("verifGoFn")}, Tok: token.DEFINE, Rhs: []ast.Expr{g.Call.Fun}})
+				fun = ast.NewIdent("verifGoFn")
+			}
+			args := make([]ast.Expr, len(g.Call.Args))
+			for k, a := range g.Call.Args {
+				if _, ok := a.(*ast.BasicLit); ok {
+					args[k] = a
+					continue
+				}
+				name := "verifGoArg" + strconv.Itoa(k)
+				blk.List = append(blk.List, &ast.AssignStmt{Lhs: []ast.Expr{ast.NewIdent(name)}, Tok: token.DEFINE, Rhs: []ast.Expr{a}})
+				args[k] = ast.NewIdent(name)
+			}
+			call := &ast.CallExpr{Fun: fun, Args: args}
+			if g.Call.Ellipsis.IsValid() {
+				call.Ellipsis = 1
+			}
+			inner := &ast.FuncLit{
+				Type: &ast.FuncType{Params: &ast.FieldList{}},
+				Body: &ast.BlockStmt{List: []ast.Stmt{&ast.ExprStmt{X: call}}},
+			}
+			blk.List = append(blk.List, &ast.ExprStmt{X: &ast.CallExpr{
+				Fun:  &ast.SelectorExpr{X: ast.NewIdent("verifsync"), Sel: ast.NewIdent("Go")},
+				Args: []ast.Expr{inner},
+			}})
+			list[i] = blk
+			n++
+		}
+	}
+	ast.Inspect(f, func(x ast.Node) bool {
+		switch b := x.(type) {
+		case *ast.BlockStmt:
+			fix(b.List)
+		case *ast.CaseClause:
+			fix(b.Body)
+		case *ast.CommClause:
+			fix(b.Body)
+		}
+		return true
+	})
+	return n
+}
+
+func rewriteFile(path string, raw []byte, nsel int, doSync, doOS bool, mapOffs map[int]bool) (changed bool, out []byte, nsync, nos int, err error) {
 	fset := token.NewFileSet()
-	f, err := parser.ParseFile(fset, path, nil, parser.ParseComments)
+	f, err := parser.ParseFile(fset, path, raw, parser.ParseComments)
 	if err != nil {
 		return false, nil, 0, 0, err
 	}
@@ -187,10 +672,32 @@ func rewriteFile(path string, doSync, doOS bool) (changed bool, out []byte, nsyn
 	if !doOS {
 		osName = ""
 	}
-	if syncName == "" && osName == "" {
+	if syncName == "" && osName == "" && nsel == 0 && len(mapOffs) == 0 && !doSync {
 		return false, nil, 0, 0, nil
 	}
 	syncLeft, osLeft := 0, 0
+	if osName != "" {
+		nos += rewriteCleanupGo(f, osName)
+	}
+	ngo := 0
+	if doSync {
+		ngo = rewriteGo(f)
+		ngoTotal += ngo
+		nm := rewriteMapRanges(fset, f, mapOffs)
+		nmapTotal += nm
+		ngo += nm // needs the verifsync import as well
+	}
+	timeName := ""
+	if doSync {
+		for _, im := range f.Imports {
+			if p, _ := strconv.Unquote(im.Path.Value); p == "time" {
+				timeName = "time"
+				if im.Name != nil {
+					timeName = im.Name.Name
+				}
+			}
+		}
+	}
 	ast.Inspect(f, func(n ast.Node) bool {
 		sel, ok := n.(*ast.SelectorExpr)
 		if !ok {
@@ -201,6 +708,12 @@ func rewriteFile(path string, doSync, doOS bool) (changed bool, out []byte, nsyn
 			return true
 		}
 		switch {
+		case timeName != "" && id.Name == timeName && sel.Sel.Name == "NewTicker":
+			// tickers created at the same instant with commensurable periods fire at the same
+			// simulated instant, and which one a blocked select sees first is up to the runtime:
+			// verifsync.NewTicker adds a few nanoseconds, different for every ticker of a run
+			id.Name = "verifsync"
+			ngo++
 		case syncName != "" && id.Name == syncName:
 			if syncTypes[sel.Sel.Name] {
 				id.Name = "verifsync"
@@ -218,9 +731,10 @@ func rewriteFile(path string, doSync, doOS bool) (changed bool, out []byte, nsyn
 		}
 		return true
 	})
-	if nsync == 0 && nos == 0 {
+	if nsync == 0 && nos == 0 && nsel == 0 && ngo == 0 {
 		return false, nil, 0, 0, nil
 	}
+	nselTotal += nsel
 	// drop imports that are no longer used
 	dropImport := func(pathLit string) {
 		for _, d := range f.Decls {
@@ -268,7 +782,7 @@ func rewriteFile(path string, doSync, doOS bool) (changed bool, out []byte, nsyn
 	src := buf.String()
 	// add our imports as separate declarations right after the package clause
 	add := ""
-	if nsync > 0 {
+	if nsync > 0 || nsel > 0 || ngo > 0 {
 		add += "import verifsync \"" + modPath + "/pkg/verifsync\"\n"
 	}
 	if nos > 0 {
